@@ -7,9 +7,9 @@
 
 namespace vf {
 
-enum IoType { T_LWEPARAMS, T_LWESAMPLE, T_LWEKEY, T_TLWEPARAMS, T_TLWESAMPLE, T_TLWEKEY, T_TGSWPARAMS, T_TGSWSAMPLE, T_TGSWKEY, T_KSKEY, T_BKKEY, T_GBPARAMS, T_CLOUD, T_SECRET, T_COUNT };
+enum IoType { T_LWEPARAMS, T_LWESAMPLE, T_LWEKEY, T_TLWEPARAMS, T_TLWESAMPLE, T_TLWEKEY, T_TGSWPARAMS, T_TGSWSAMPLE, T_TGSWKEY, T_KSKEY, T_BKKEY, T_GBPARAMS, T_CLOUD, T_SECRET, T_GATECT, T_COUNT };
 static const char *IONAME[T_COUNT] = {"LweParams", "LweSample", "LweKey", "TLweParams", "TLweSample", "TLweKey", "TGswParams", "TGswSample", "TGswKey",
-                                      "LweKeySwitchKey", "LweBootstrappingKey", "GateBootstrappingParameterSet", "CloudKeySet", "SecretKeySet"};
+                                      "LweKeySwitchKey", "LweBootstrappingKey", "GateBootstrappingParameterSet", "CloudKeySet", "SecretKeySet", "GateCiphertext"};
 
 struct IoObj {
     int type = 0;
@@ -58,6 +58,10 @@ inline IoObj *io_build(const J &d) {
             seed_lib((uint64_t)d["seed"].i(), 0x10f5u);
             o->p = new_random_gate_bootstrapping_secret_keyset(o->gb); // T_CLOUD exports &sk->cloud
             break; }
+        case T_GATECT: { // a gate-API ciphertext, exported with its gate parameter set
+            o->lp = new_LweParams(n, amin, amax); o->tp = new_TLweParams(N, k, amin2, amax2); o->gp = new_TGswParams(l, Bgbit, o->tp);
+            o->gb = new TFheGateBootstrappingParameterSet(t, bb, o->lp, o->gp);
+            LweSample *s = new_gate_bootstrapping_ciphertext(o->gb); fillp(s->a, n); s->b = r.i32(); s->current_variance = var(); o->p = s; break; }
     }
     return o;
 }
@@ -79,6 +83,7 @@ inline void io_free(IoObj *o) { // built objects own their parameter objects; im
         case T_BKKEY: delete_LweBootstrappingKey((LweBootstrappingKey *)o->p); break;
         case T_GBPARAMS: delete_gate_bootstrapping_parameters((TFheGateBootstrappingParameterSet *)o->p); break;
         case T_CLOUD: case T_SECRET: delete_gate_bootstrapping_secret_keyset((TFheGateBootstrappingSecretKeySet *)o->p); break;
+        case T_GATECT: delete_gate_bootstrapping_ciphertext((LweSample *)o->p); break;
     }
     if (o->gb) delete_gate_bootstrapping_parameters(o->gb);
     if (o->gp) delete_TGswParams(o->gp);
@@ -105,6 +110,7 @@ inline void io_export_file(const IoObj *o, FILE *F) {
         case T_GBPARAMS: export_tfheGateBootstrappingParameterSet_toFile(F, (TFheGateBootstrappingParameterSet *)o->p); break;
         case T_CLOUD: export_tfheGateBootstrappingCloudKeySet_toFile(F, io_cloud(o)); break;
         case T_SECRET: export_tfheGateBootstrappingSecretKeySet_toFile(F, (TFheGateBootstrappingSecretKeySet *)o->p); break;
+        case T_GATECT: export_gate_bootstrapping_ciphertext_toFile(F, (LweSample *)o->p, o->gb); break;
     }
 }
 inline void io_export_stream(const IoObj *o, std::ostream &F) {
@@ -123,6 +129,7 @@ inline void io_export_stream(const IoObj *o, std::ostream &F) {
         case T_GBPARAMS: export_tfheGateBootstrappingParameterSet_toStream(F, (TFheGateBootstrappingParameterSet *)o->p); break;
         case T_CLOUD: export_tfheGateBootstrappingCloudKeySet_toStream(F, io_cloud(o)); break;
         case T_SECRET: export_tfheGateBootstrappingSecretKeySet_toStream(F, (TFheGateBootstrappingSecretKeySet *)o->p); break;
+        case T_GATECT: export_gate_bootstrapping_ciphertext_toStream(F, (LweSample *)o->p, o->gb); break;
     }
 }
 inline std::string io_export_bytes(const IoObj *o, bool file) {
@@ -139,7 +146,7 @@ inline std::string io_export_bytes(const IoObj *o, bool file) {
 inline IoObj *io_import_any(int type, const IoObj *proto, FILE *F, std::istream *S) {
     IoObj *o = new IoObj;
     o->type = type; o->imported = true;
-    if (proto) { o->lp = proto->lp; o->tp = proto->tp; o->gp = proto->gp; }
+    if (proto) { o->lp = proto->lp; o->tp = proto->tp; o->gp = proto->gp; o->gb = proto->gb; }
     switch (type) {
         case T_LWEPARAMS: o->p = F ? new_lweParams_fromFile(F) : new_lweParams_fromStream(*S); break;
         case T_LWESAMPLE: { LweSample *s = new_LweSample(proto->lp); if (F) import_lweSample_fromFile(F, s, proto->lp); else import_lweSample_fromStream(*S, s, proto->lp); o->p = s; break; }
@@ -155,6 +162,7 @@ inline IoObj *io_import_any(int type, const IoObj *proto, FILE *F, std::istream 
         case T_GBPARAMS: o->p = F ? new_tfheGateBootstrappingParameterSet_fromFile(F) : new_tfheGateBootstrappingParameterSet_fromStream(*S); break;
         case T_CLOUD: o->p = F ? new_tfheGateBootstrappingCloudKeySet_fromFile(F) : new_tfheGateBootstrappingCloudKeySet_fromStream(*S); break;
         case T_SECRET: o->p = F ? new_tfheGateBootstrappingSecretKeySet_fromFile(F) : new_tfheGateBootstrappingSecretKeySet_fromStream(*S); break;
+        case T_GATECT: { LweSample *s = new_gate_bootstrapping_ciphertext(proto->gb); if (F) import_gate_bootstrapping_ciphertext_fromFile(F, s, proto->gb); else import_gate_bootstrapping_ciphertext_fromStream(*S, s, proto->gb); o->p = s; break; }
     }
     // make exported-again objects exportable: samples need their params
     if (type == T_KSKEY) o->lp = nullptr;
@@ -179,6 +187,7 @@ inline void io_free_imported(IoObj *o) {
         case T_GBPARAMS: delete_gate_bootstrapping_parameters((TFheGateBootstrappingParameterSet *)o->p); break;
         case T_CLOUD: delete_gate_bootstrapping_cloud_keyset((TFheGateBootstrappingCloudKeySet *)o->p); break;
         case T_SECRET: delete_gate_bootstrapping_secret_keyset((TFheGateBootstrappingSecretKeySet *)o->p); break;
+        case T_GATECT: delete_gate_bootstrapping_ciphertext((LweSample *)o->p); break;
     }
     (void)tmp;
     delete o;
@@ -256,7 +265,7 @@ inline std::string eq_gb(const TFheGateBootstrappingParameterSet *a, const TFheG
 inline std::string io_equal(const IoObj *a, const IoObj *b) {
     switch (a->type) {
         case T_LWEPARAMS: return eq_lweparams((LweParams *)a->p, (LweParams *)b->p);
-        case T_LWESAMPLE: return eq_lwesample((LweSample *)a->p, (LweSample *)b->p, a->lp->n, true, 0);
+        case T_LWESAMPLE: case T_GATECT: return eq_lwesample((LweSample *)a->p, (LweSample *)b->p, a->lp->n, true, 0);
         case T_LWEKEY: { const LweKey *x = (LweKey *)a->p, *y = (LweKey *)b->p; std::string w = eq_lweparams(x->params, y->params); if (!w.empty()) return w; IOCMP(!memcmp(x->key, y->key, (size_t)x->params->n * 4), "LWE key coefficients differ"); return ""; }
         case T_TLWEPARAMS: return eq_tlweparams((TLweParams *)a->p, (TLweParams *)b->p);
         case T_TLWESAMPLE: return eq_tlwesample((TLweSample *)a->p, (TLweSample *)b->p, a->tp->N, a->tp->k, true, 0);
